@@ -95,6 +95,11 @@ class SV:
     def arr(self, name):
         return self.h.get(name)
 
+    @property
+    def cs(self):
+        """the children structure (ghost tree predicates are functions of exactly these three arrays)"""
+        return (self.h.get("F:_children"), self.h.get("llen"), self.h.get("lelem"))
+
     def f(self, field, n):
         return self.h.get("F:" + field)[n]
 
@@ -154,9 +159,9 @@ class SV:
         return z3.And(
             n >= 0,
             dm[smt.absent] == smt.absent,
-            z3.ForAll([i], z3.Implies(z3.And(0 <= i, i < n), z3.And(dm[dk[i]] != smt.absent, dp[dk[i]] == i)),
+            smt.FA([i], z3.Implies(z3.And(0 <= i, i < n), z3.And(dm[dk[i]] != smt.absent, dp[dk[i]] == i)),
                       patterns=[dk[i]]),
-            z3.ForAll([k], z3.Implies(dm[k] != smt.absent, z3.And(0 <= dp[k], dp[k] < n, dk[dp[k]] == k)),
+            smt.FA([k], z3.Implies(dm[k] != smt.absent, z3.And(0 <= dp[k], dp[k] < n, dk[dp[k]] == k)),
                       patterns=[dm[k]]),
         )
 
@@ -195,6 +200,15 @@ class Ctx:
     def fresh(self, base, sort):
         self.counter += 1
         return z3.Const(f"{base}!{self.counter}", sort)
+
+    def def_array(self, name, idx_sort, body_fn):
+        """fresh array constant a with (forall j. a[j] == body_fn(j)); keeps heap terms first order (no lambdas inside
+        arguments of ghost functions, where E-matching cannot see through them)."""
+        j = z3.Const("da_j", idx_sort)
+        body = body_fn(j)
+        a = self.fresh(name, z3.ArraySort(idx_sort, body.sort()))
+        self.assume(z3.ForAll([j], a[j] == body, patterns=[a[j]]))
+        return a
 
     def next_serial(self):
         self.serial += 1
